@@ -28,6 +28,30 @@ CHECKS = {
          "Every step inside the real queue's methods is a yield point; a seeded controller explores producer/consumer interleavings; histories are checked for linearizability against a list model with porcupine, plus conservation, depth and deadlock-freedom; all sequential histories up to length 6/7 are enumerated; a -race stress leg runs the same two goroutines free.",
          "Trusts porcupine and the list model; one producer, one consumer as stated.",
          "deterministic simulation of a 2-goroutine queue workload + porcupine linearizability check; exhaustive short sequential histories; race-detector stress leg", "5/C20"),
+ "C04": ("exploration",
+         "Every rooted tree shape with <= 5 levels is visited in turn (larger ones sampled) with random authenticated edges, start levels and operation sequences; the device's (mode, line) log per call is compared with the unique tree path's commands, the level each line ran at and the final mode. Segmentation, latency and goroutine interleaving are seeded per run.",
+         "Trusts the CLI device model; level prompts are mutually exclusive by construction; driver-side map iteration order is not seeded (histories do not depend on it on conforming code).",
+         "deterministic simulation of network-driver sessions against a privilege-tree device model; tree shapes enumerated by run index", "5/C04"),
+ "C10": ("exploration",
+         "Generated login dialogues (telnet and ssh flavours, rejections, error lines, silence) with a reference deciding the expected outcome; the login device's (state, line) log shows which credential arrived where and how often; clean dialogues are re-run with silence injected at a stride of byte offsets (timeout class, give-up time on the fake clock, transport closed).",
+         "Trusts the login device model and the reference ('each credential asked at most twice'); banner alphabet excludes prompt-like characters as the property requires.",
+         "deterministic simulation of in-channel authentication against a login device model + stall-point injection", "5/C10"),
+ "C11": ("exploration",
+         "A monitor: debug-level logger and channel-log sink attached to generated login dialogues (incl. retries, failures, timeouts) and privilege escalations (device asks / grants / refuses); every logged string and channel-log byte run is searched for the run's secrets (random, with format verbs and regexp metacharacters).",
+         "Assumes the device never echoes a secret (property's assumption); platform on-open redaction is exercised in C17's runs.",
+         "deterministic simulation (C10/C12 dialogue generators) with a log-capture oracle", "5/C11"),
+ "C12": ("exploration",
+         "Generated interactive dialogues, plain sends and escalations against a device that pauses and segments its answers; the transport's write log records how many device bytes had been delivered at each write, so typing ahead of the previous response, returning before the echo, or typing the secret anywhere but at the password prompt is visible.",
+         "'Delivered' = returned by the transport's Read; completion patterns are prompts (as in the library's own use).",
+         "deterministic simulation with device-paced delays; causal write/read log oracle", "5/C12"),
+ "C13": ("exploration",
+         "Generated command lists with failure strings at chosen positions under disjoint driver-level and operation-level lists, stop-on-failed on/off, all multi-command entry points incl. from-file variants; marks are compared with expectations by construction and the device log proves which commands were transmitted.",
+         "The marking predicate has no schedule dimension; simulation contributes the device-side observation.",
+         "deterministic simulation (device line log) + expectation by construction", "5/C13"),
+ "C18": ("exploration",
+         "Generated callback lists over a shared vocabulary against scripted dialogues; a reference trigger model written from the property statement is stepped on exactly the chunk sequence the transport delivered and predicts the (callback, argument) sequence, result and error class.",
+         "Callback lists exclude shapes whose outcome depends on poll timing the property does not define (see assumptions in evidence).",
+         "deterministic simulation + executable reference trigger model over the delivered chunk history", "5/C18"),
 }
 
 NOT_YET = {}  # id -> reason (filled while the framework is being built)
